@@ -106,49 +106,10 @@ func (P *Program) effectOf(fn *ssa.Function) *Effect {
 	}
 	P.mu.Unlock()
 	eff := &Effect{Keys: map[string]bool{}}
-	if !inFalco(fn) || fn.Blocks == nil {
-		eff.add(P.directEffect(fn))
-		if !inFalco(fn) && P.externEffect(fn, nil) == "full" {
-			// callbacks: functions of matching signature / methods of the interfaces it receives
-			P.buildCallGraph()
-			sig := fn.Signature
-			for k := 0; k < sig.Params().Len(); k++ {
-				switch u := sig.Params().At(k).Type().Underlying().(type) {
-				case *types.Signature:
-					for _, f := range P.cgDyn {
-						if sameSig(f.Signature, u) {
-							eff.add(P.effectOf(f))
-						}
-					}
-				case *types.Interface:
-					for m := 0; m < u.NumMethods(); m++ {
-						for _, f := range P.methodsImplementing(sig.Params().At(k).Type(), u.Method(m)) {
-							eff.add(P.effectOf(f))
-						}
-					}
-				}
-			}
-		}
-	} else {
-		P.buildCallGraph()
-		seen := map[*ssa.Function]bool{}
-		stack := []*ssa.Function{fn}
-		dynDone := false
-		for len(stack) > 0 && !eff.full() {
-			f := stack[len(stack)-1]
-			stack = stack[:len(stack)-1]
-			if seen[f] {
-				continue
-			}
-			seen[f] = true
-			eff.add(P.directEffect(f))
-			stack = append(stack, P.cgEdges[f]...)
-			if P.cgIsDyn[f] && !dynDone {
-				dynDone = true
-				stack = append(stack, P.cgDyn...)
-			}
-		}
-	}
+	P.reachWalk(fn, func(f *ssa.Function) bool {
+		eff.add(P.directEffect(f))
+		return !eff.full()
+	})
 	P.mu.Lock()
 	P.effCache[fn] = eff
 	P.mu.Unlock()
@@ -366,7 +327,7 @@ func (P *Program) callEffect(eff *Effect, c *ssa.CallCommon, caller *ssa.Functio
 		if P.methodAssumedPure(c.Value.Type(), c.Method.Name()) {
 			return
 		}
-		for _, m := range P.methodsImplementing(c.Value.Type(), c.Method) {
+		for _, m := range P.siteCallees(caller, c) {
 			eff.add(P.effectOf(m))
 		}
 		if !P.closedWorld(c.Value.Type()) {
@@ -376,15 +337,8 @@ func (P *Program) callEffect(eff *Effect, c *ssa.CallCommon, caller *ssa.Functio
 	}
 	callee := c.StaticCallee()
 	if callee == nil {
-		P.buildCallGraph()
-		if sig, ok := c.Value.Type().Underlying().(*types.Signature); ok {
-			for _, f := range P.cgDyn {
-				if sameSig(f.Signature, sig) {
-					eff.add(P.effectOf(f))
-				}
-			}
-		} else {
-			eff.setAll()
+		for _, f := range P.siteCallees(caller, c) {
+			eff.add(P.effectOf(f))
 		}
 		eff.Ext = true
 		return
@@ -568,4 +522,51 @@ func (P *Program) contractEffect(fn *ssa.Function, con *Contract) *Effect {
 		}
 	}
 	return eff
+}
+
+
+// reachWalk visits fn and every falco function reachable from it in the VTA call graph. External
+// functions entered from falco code are expanded (to find callbacks into falco) only when they are
+// classified "full"; "pure"/"shallow" externals are assumed not to call back code that writes
+// modelled memory (fmt's String()/Error() observers etc. -- a listed assumption).
+func (P *Program) reachWalk(fn *ssa.Function, visit func(*ssa.Function) bool) {
+	P.buildCallGraph()
+	type item struct {
+		f        *ssa.Function
+		inExtern bool
+	}
+	seen := map[*ssa.Function]bool{}
+	stack := []item{{fn, false}}
+	first := true
+	for len(stack) > 0 {
+		it := stack[len(stack)-1]
+		stack = stack[:len(stack)-1]
+		f := it.f
+		if seen[f] {
+			continue
+		}
+		seen[f] = true
+		falco := inFalco(f)
+		if falco || first {
+			if !visit(f) {
+				return
+			}
+		}
+		if !falco && !it.inExtern && !first {
+			// entering external code from falco code
+			if P.externEffect(f, nil) != "full" {
+				continue
+			}
+		}
+		if !falco && first && P.externEffect(f, nil) != "full" {
+			first = false
+			continue
+		}
+		first = false
+		for _, g := range P.cgEdges[f] {
+			if !seen[g] {
+				stack = append(stack, item{g, !falco})
+			}
+		}
+	}
 }
